@@ -226,15 +226,18 @@ def spec_digests(env, c):
     return [o.split()[1] for o in out[-n:]] if n else []
 
 
-def spec_sign(env, c):
-    """Sign every hop, origin first, over the spec digest with the independent signer."""
+def spec_sign(env, c, forged=None):
+    """Sign every hop, origin first, over the spec digest with the independent signer.
+    forged: {hop: key index} - that hop's signature is made with another key than the one its SKI names (a forgery
+    that every later hop then signs over in good faith)."""
+    forged = forged or {}
     n = len(c["secs"])
     c["sigs"] = [[env.keys[c["hopkeys"][k]]["ski"], "00"] for k in range(n)]
     for k in range(n - 1, -1, -1):
         d = env.m.ask(data_lines(c) + ["digest %d" % k])[-1].split()[1]
         if d == "None":
             raise vlib.BuildError("spec digest undefined for a well-formed update: %r" % c)
-        c["sigs"][k][1] = env.isign(c["hopkeys"][k], d)
+        c["sigs"][k][1] = env.isign(forged.get(k, c["hopkeys"][k]), d)
     return c
 
 
@@ -338,10 +341,29 @@ def gen_nlri(rnd, afi):
 LONG_PATHS = [42, 43, 44, 85, 86, 128, 255]
 
 
-def gen_case(rnd, env, nhops=None):
+def forged_variants(rnd, env, c):
+    """One hop's signature made with a key other than the one named by its SKI, all later hops re-signed over it:
+    the origin (signed over the NLRI itself), and a random hop."""
+    n = len(c["secs"])
+    out = []
+    if len(env.keys) < 2 or n > 16:
+        return out
+    for k in sorted(set([n - 1, rnd.randrange(n)])):
+        d = json.loads(json.dumps(c))
+        d["table"] = [tuple(e) for e in d["table"]]
+        other = rnd.choice([i for i in range(len(env.keys)) if i != c["hopkeys"][k]])
+        spec_sign(env, d, forged={k: other})
+        out.append(("hop %d of %d signed with a key its SKI does not name, later hops re-signed" % (k, n), d))
+    return out
+
+
+def gen_case(rnd, env, nhops=None, nlen=None):
     afi = rnd.choice([1, 2])
     n = nhops or (rnd.choice(LONG_PATHS) if rnd.random() < 0.02 else rnd.choice([1, 2, 2, 3, 3, 4, 4, 5, 5, 6, 7, 8]))
-    nlen, nl_exact, nl_buf = gen_nlri(rnd, afi)
+    nlen_, nl_exact, nl_buf = gen_nlri(rnd, afi)
+    if nlen is not None:
+        nlen_, nl_buf = nlen, (bytes(rnd.randrange(256) for _ in range(nbytes(nlen))) + bytes(32 - nbytes(nlen))).hex()
+    nlen = nlen_
     secs = []
     for _ in range(n):
         pc = rnd.choice([1, 1, 1, 0, 2, 255, rnd.randrange(256)])
@@ -823,7 +845,9 @@ def run(chk):
             if time.time() - t0 > budget_t and i >= 12:
                 notes.append("time budget reached after %d paths" % i)
                 break
-            c = gen_case(rnd, env, nhops={2: 43, 9: 44}.get(i) if quick else {2: 43, 7: 86, 11: 255, 15: 42, 19: 128}.get(i))
+            # fixed positions: long paths; the empty prefix (/0: no NLRI byte is hashed) with several hops
+            c = gen_case(rnd, env, nhops=({2: 43, 9: 44, 4: 3, 12: 2} if quick else {2: 43, 7: 86, 11: 255, 15: 42, 19: 128, 4: 3, 12: 2}).get(i),
+                         nlen={4: 0, 12: 0}.get(i))
             n = len(c["secs"])
             stats["hops"][str(n)] = stats["hops"].get(str(n), 0) + 1
             stats["afi"][str(c["afi"])] = stats["afi"].get(str(c["afi"]), 0) + 1
@@ -859,6 +883,10 @@ def run(chk):
                     stats["malformed"] += 1
                     d["no_resign"] = True
                     examine(env, d, stats, what="malformed: " + desc)
+                for desc, d in forged_variants(rnd, env, c):
+                    stats["forged"] = stats.get("forged", 0) + 1
+                    d["no_resign"] = True
+                    examine(env, d, stats, what="forged: " + desc)
             except Finding as f:
                 if f.kind == "impl-vs-spec" and not f.case.get("no_resign"):
                     def fails(d, key=f.key):
